@@ -1,12 +1,14 @@
 ''' Whole bundle encodings and helper functions.
 '''
 import cbor2
+import logging
 from typing import Set
 from scapy_cbor.fields import (PacketField, PacketListField)
 from scapy_cbor.packets import (CborArray)
 from .blocks import (PrimaryBlock, CanonicalBlock)
 from .admin import AdminRecord
 
+LOGGER = logging.getLogger(__name__)
 
 class Bundle(CborArray):
     ''' An entire decoded bundle contents.
@@ -52,7 +54,12 @@ class Bundle(CborArray):
                 blk_data = blk.getfieldval('btsd')
                 if (blk.type_code == Bundle.BLOCK_TYPE_PAYLOAD
                         and blk_data is not None):
-                    pay = AdminRecord(blk_data)
+                    try:
+                        pay = AdminRecord(blk_data)
+                    except Exception as err:
+                        # the data stays as it is, as for any other block
+                        LOGGER.warning('Failed to dissect administrative record (maybe encrypted?): %s', err)
+                        continue
                     blk.remove_payload()
                     blk.add_payload(pay)
 
